@@ -30,6 +30,9 @@ import (
 	"github.com/tokenized/pkg/wire"
 )
 
+// capacity of BlockManager.requests (NewBlockManager); the extractor publishes it as Facts.requestsCap
+const requestsCap = 10
+
 type proc struct{}
 
 func (p *proc) ProcessTx(ctx context.Context, tx *wire.MsgTx) (bool, error) { return true, nil }
@@ -345,6 +348,20 @@ func (s *state) step(op string) string {
 			s.blocks[int(k)] = makeBlock(int(k))
 		}
 		b := s.blocks[int(k)]
+		// AddRequest blocks while the request channel (capacity 10) is full: the manager at rest holds
+		// one request as current and the others in the channel. The model has the call disabled then.
+		s.Lock()
+		unsignalled := 0
+		for _, r := range s.requests {
+			if len(r.signals) == 0 {
+				unsignalled++
+			}
+		}
+		s.Unlock()
+		if !s.runDone.Load() && !s.intrDone && unsignalled >= requestsCap+1 {
+			ign = " ign=1"
+			break
+		}
 		complete, abort := s.m.AddRequest(ctx, b.hash, 100+int(k), &proc{})
 		if complete == nil {
 			ign = " refused=1"
